@@ -253,6 +253,150 @@ Proof.
   destruct X as (_ & _ & _ & _ & _ & N). rewrite Eh in N. congruence.
 Qed.
 
+(* ---- a learned / imported signature stays active until its exact text is named ---- *)
+
+Lemma zl_eq_true : forall a b, zl_eq a b = true <-> a = b.
+Proof.
+  induction a as [|x a IH]; destruct b as [|y b]; cbn; split; intro H; try discriminate; auto.
+  - destruct (x =? y) eqn:E; [|discriminate]. apply Z.eqb_eq in E. apply IH in H. congruence.
+  - inversion H; subst. rewrite Z.eqb_refl. now apply IH.
+Qed.
+
+Lemma zl_eq_false : forall a b, zl_eq a b = false <-> a <> b.
+Proof. intros. rewrite <- zl_eq_true. destruct (zl_eq a b); split; congruence. Qed.
+
+Lemma existsb_false_forall : forall A (p : A -> bool) l,
+  existsb p l = false -> forall x, In x l -> p x = false.
+Proof.
+  intros A p l H x Hx. destruct (p x) eqn:E; auto.
+  assert (existsb p l = true) by (apply existsb_exists; eauto). congruence.
+Qed.
+
+Lemma upsert_in : forall l g, In g (upsert l g).
+Proof.
+  induction l as [|x l IH]; intros g; cbn; [now left|].
+  destruct (zl_eq (s_key x) (s_key g)); [now left | right; apply IH].
+Qed.
+
+Lemma upsert_keeps : forall l g g', In g l -> s_key g' <> s_key g -> In g (upsert l g').
+Proof.
+  induction l as [|x l IH]; intros g g' H N; [destruct H|]. cbn.
+  destruct (zl_eq (s_key x) (s_key g')) eqn:E.
+  - apply zl_eq_true in E. destruct H as [H|H]; [subst x; congruence | now right].
+  - destruct H as [H|H]; [now left | right; now apply IH].
+Qed.
+
+Lemma fold_upsert_keeps : forall l' l g,
+  In g l -> (forall g', In g' l' -> s_key g' <> s_key g) -> In g (fold_left upsert l' l).
+Proof.
+  induction l' as [|a l' IH]; intros l g H N; cbn; auto.
+  apply IH.
+  - apply upsert_keeps; auto. apply N. now left.
+  - intros g' Hg'. apply N. now right.
+Qed.
+
+(* import_antibodies(l1 + [g] + l2): g is held afterwards unless a LATER element
+   of the same list carries exactly its text *)
+Lemma fold_upsert_in : forall l1 g l2 l,
+  (forall g', In g' l2 -> s_key g' <> s_key g) -> In g (fold_left upsert (l1 ++ g :: l2) l).
+Proof.
+  intros l1 g l2 l N. rewrite fold_left_app. cbn [fold_left].
+  apply fold_upsert_keeps; auto. apply upsert_in.
+Qed.
+
+Lemma forget_in : forall l k g, In g (forget l k) <-> In g l /\ s_key g <> k.
+Proof.
+  intros. unfold forget. rewrite filter_In, negb_true_iff, zl_eq_false. tauto.
+Qed.
+
+(* names_key is exact equality of the pattern text, nothing coarser *)
+Lemma names_key_exact : forall cfg k op, names_key cfg k op = true ->
+  op = OForget k \/
+  exists g, s_key g = k /\ (op = OLearn g \/ exists l, op = OImport l /\ In g l).
+Proof.
+  intros cfg k op H. destruct op; cbn [names_key] in H; try discriminate.
+  - apply andb_true_iff in H. destruct H as [_ H]. apply zl_eq_true in H. right. exists g. auto.
+  - apply zl_eq_true in H. left. now subst.
+  - apply existsb_exists in H. destruct H as (g & Hg & E). apply zl_eq_true in E.
+    right. exists g. split; auto. right. exists l. auto.
+Qed.
+
+Lemma mstep_learned_keeps : forall cfg st op g,
+  In g (m_learned st) -> names_key cfg (s_key g) op = false ->
+  In g (m_learned (fst (mstep cfg st op))).
+Proof.
+  intros cfg st op g H N. destruct op; cbn [mstep fst names_key] in *; auto.
+  - destruct (mfilter cfg st content) as [st' r] eqn:F. cbn [fst].
+    destruct (mfilter_state _ _ _ _ _ F) as (_ & L & _). now rewrite L.
+  - destruct (c_adaptive cfg); cbn [andb] in N; auto.
+    cbn [set_learned m_learned]. apply upsert_keeps; auto. now apply zl_eq_false.
+  - cbn [set_learned m_learned]. apply forget_in. split; auto.
+    apply zl_eq_false in N. congruence.
+  - cbn [set_learned m_learned]. apply fold_upsert_keeps; auto.
+    intros g' Hg'. apply zl_eq_false. exact (existsb_false_forall _ _ _ N g' Hg').
+Qed.
+
+Lemma mrun_learned_keeps : forall cfg ops st g,
+  In g (m_learned st) -> forallb (fun op => negb (names_key cfg (s_key g) op)) ops = true ->
+  In g (m_learned (fst (mrun cfg st ops))).
+Proof.
+  intros cfg. induction ops as [|op ops IH]; intros st g H N; cbn [mrun fst]; auto.
+  cbn [forallb] in N. apply andb_true_iff in N. destruct N as [N1 N2]. apply negb_true_iff in N1.
+  pose proof (mstep_learned_keeps cfg st op g H N1) as H1.
+  destruct (mstep cfg st op) as [st1 o]. cbn [fst] in H1.
+  specialize (IH st1 g H1 N2). destruct (mrun cfg st1 ops) as [st2 rs]. exact IH.
+Qed.
+
+(* what a held signature does to a matching input *)
+Lemma learned_blocks : forall cfg st g c,
+  In g (m_learned st) -> sig_matches (c_cc cfg) g c = true ->
+  (m_threshold st <= s_level g -> r_allowed (snd (mfilter cfg st c)) = false) /\
+  (r_kind (snd (mfilter cfg st c)) = Scanned ->
+   In g (r_matched (snd (mfilter cfg st c))) /\ s_level g <= r_level (snd (mfilter cfg st c))).
+Proof.
+  intros cfg st g c H M. destruct (mfilter cfg st c) as [st' r] eqn:F. cbn [snd].
+  assert (A : In g (active st)) by (unfold active; apply in_or_app; now right).
+  split.
+  - intros L. destruct (r_allowed r) eqn:E; auto.
+    destruct (m_allowed_sound _ _ _ _ _ F E) as (_ & S). specialize (S g A M). lia.
+  - intros K. destruct (m_level_is_max _ _ _ _ _ F K) as (I & G & _).
+    assert (In g (r_matched r)) by (apply I; auto). auto.
+Qed.
+
+Lemma learned_active_all :
+  (* learn_threat (adaptive) and import_antibodies put the signature into the memory ... *)
+  (forall cfg st g, c_adaptive cfg = true -> In g (m_learned (fst (mstep cfg st (OLearn g))))) /\
+  (forall cfg st l1 g l2, (forall g', In g' l2 -> s_key g' <> s_key g) ->
+     In g (m_learned (fst (mstep cfg st (OImport (l1 ++ g :: l2)))))) /\
+  (* ... it stays there, unchanged, through every history that does not name exactly its text ... *)
+  (forall cfg ops st g,
+     In g (m_learned st) -> forallb (fun op => negb (names_key cfg (s_key g) op)) ops = true ->
+     In g (m_learned (fst (mrun cfg st ops)))) /\
+  (* ... "names" is equality of the text as written ... *)
+  (forall cfg k op, names_key cfg k op = true ->
+     op = OForget k \/
+     exists g, s_key g = k /\ (op = OLearn g \/ exists l, op = OImport l /\ In g l)) /\
+  (* ... forget_threat(k) removes the signatures whose text is k and no other ... *)
+  (forall cfg st k g, In g (m_learned (fst (mstep cfg st (OForget k)))) <-> In g (m_learned st) /\ s_key g <> k) /\
+  (* ... and while it is held, a matching input is refused when its level reaches the threshold, and a
+     scan reports it with at least its level *)
+  (forall cfg ops st g c,
+     In g (m_learned st) -> forallb (fun op => negb (names_key cfg (s_key g) op)) ops = true ->
+     sig_matches (c_cc cfg) g c = true ->
+     let st' := fst (mrun cfg st ops) in
+     (m_threshold st' <= s_level g -> r_allowed (snd (mfilter cfg st' c)) = false) /\
+     (r_kind (snd (mfilter cfg st' c)) = Scanned ->
+      In g (r_matched (snd (mfilter cfg st' c))) /\ s_level g <= r_level (snd (mfilter cfg st' c)))).
+Proof.
+  split; [|split; [|split; [|split; [|split]]]].
+  - intros cfg st g A. cbn [mstep fst]. rewrite A. cbn [set_learned m_learned]. apply upsert_in.
+  - intros cfg st l1 g l2 N. cbn [mstep fst set_learned m_learned]. now apply fold_upsert_in.
+  - exact mrun_learned_keeps.
+  - exact names_key_exact.
+  - intros cfg st k g. cbn [mstep fst set_learned m_learned]. apply forget_in.
+  - intros cfg ops st g c H N M st'. apply learned_blocks; auto. now apply mrun_learned_keeps.
+Qed.
+
 (* ---- audit trail ------------------------------------------------------------------ *)
 
 Definition is_clear (op : mop) : bool := match op with OClearAudit => true | _ => false end.
